@@ -281,6 +281,8 @@ def run(chk, ctx) -> None:
     # ... nor can the arithmetic of the cascade fail on one of the admitted chip types
     from .helpers import chip_literals
     chip_literals(chk, ctx, 'C07.atomic')
+    from .cover import records_inert
+    records_inert(chk, ctx, 'C07.atomic')
     chk.floor('C07.atomic', 60)
 
     _reentrancy(chk, ctx, disc)
